@@ -396,7 +396,7 @@ fn check_generated(st: &mut Stats, case: &crate::gen::Case, counters: &mut (u64,
                                     st.outcome("compiled-twin-differs-from-the-reference(C01's business, no claim)");
                                 }
                                 other => {
-                                    let sig = if has_if { "evaluator/variables-in-if-branches-replaced-by-their-names".to_string() } else { format!("residual-differs/{}", case.tags[0]) };
+                                    let sig = if has_if { "evaluator/variables-in-if-branches-replaced-by-their-names".to_string() } else if defs_text.contains("(@ ") { "residual-differs/@-capture".to_string() } else { format!("residual-differs/{}", case.tags[0]) };
                                     st.violation(&sig, format!("after {}: {} -> residual {}; on {} the original returns {}, the residual {}", defs_text, expr, res, a.short(), v.short(), other.short()), expr.len(), replay.clone());
                                 }
                             }
